@@ -92,6 +92,8 @@ def to_request(cfg):
     HIST["weight_type=" + cfg["weight_type"]] += 1
     HIST["data=" + ("dyadic floats" if cfg["float_data"] else "ints")] += 1
     HIST["remove_complement=" + str(cfg["remove_complement"])] += 1
+    if cfg["remove_complement"] and cfg["max_multiplicity"] > 1:
+        HIST["remove_complement with mult>1 (only 0/total/duplicates dropped)"] += 1
     if cfg["remove_complement"] and n_out < n_in:
         HIST["preprocessing removed something"] += 1
     if n_out == 0:
